@@ -41,6 +41,14 @@ UNRELATED = [
     ["inst", 901, f"j{k}", ["mod", 900], "setattr", {"p": ["s", "s"], "bb": ["d", {"x": ["s", "ax"], "y": ["s", "ay"]}]}] for k in range(10)
 ] + [
     ["end", 901],
+    # a generated module that happens to be called like the first module of many designs, with the same
+    # parameters (another generator function of the same name): names must not be handed out process-wide
+    ["module", 0, "M0", "gen"],
+    ["sig", 0, "p1", 1, "p", "n"],
+    ["end", 0],
+    ["module", 1, "M1", "gen"],
+    ["sig", 1, "p1", 2, "p", "n"],
+    ["end", 1],
 ]
 
 
